@@ -1257,3 +1257,42 @@ pub(crate) enum CompilationItem<W, R, T> {
     Overload(Vec<TracedOverload<W, R, T>>),
     Type(Arc<XType>),
 }
+
+#[cfg(feature = "verif")]
+impl<'p, W, R, T> CompilationScope<'p, W, R, T> {
+    /// static type the compiler assigned to a variable of this scope
+    pub(crate) fn verif_variable_type(&self, name: &Identifier) -> Option<Arc<XType>> {
+        match &self.cells[*self.variables.get(name)?] {
+            Cell::Variable { t, .. } => Some(t.clone()),
+            _ => None,
+        }
+    }
+
+    /// every overload declared directly in this scope: Ok(spec) for static ones,
+    /// Err(description) for dynamic ones
+    #[allow(clippy::type_complexity)]
+    pub(crate) fn verif_functions(
+        &self,
+    ) -> Vec<(Identifier, Vec<Result<XFuncSpec, &'static str>>)> {
+        self.functions
+            .iter()
+            .map(|(name, overloads)| {
+                (
+                    *name,
+                    overloads
+                        .iter()
+                        .map(|ov| match ov {
+                            Overload::Static { spec, .. } => Ok(spec.clone()),
+                            Overload::Factory(desc, _) => Err(*desc),
+                        })
+                        .collect(),
+                )
+            })
+            .collect()
+    }
+
+    /// names of the variables declared directly in this scope
+    pub(crate) fn verif_variable_names(&self) -> Vec<Identifier> {
+        self.variables.keys().cloned().collect()
+    }
+}
